@@ -2,7 +2,7 @@
 # Runs the repository's test suite with the verif guard OFF and checks that every
 # test of the stable baseline (scripts/stable_pass.txt, from BASELINE.json) passes.
 set -u
-cd /repo
+cd "${1:-/repo}"
 export GOPROXY=off; unset GOFLAGS
 unset GOSUMDB GOTOOLCHAIN GOWORK 2>/dev/null
 out=$(mktemp)
